@@ -18,10 +18,12 @@ func verifHarness_C18_batch() {
 		m.InterestingFor = make(map[uint64]bool)
 		for r := 0; r < nr; r++ {
 			k := nondetU64()
-			// the server only ever stores true; distinct keys
+			// distinct keys.  The server only ever stores true, and the decoder renders
+			// every stored key as true; a false entry is still part of the framing (it is
+			// counted and written), so it is allowed here and only its value is exempt
 			_, dup := m.InterestingFor[k]
 			verifAssume(!dup)
-			m.InterestingFor[k] = true
+			m.InterestingFor[k] = nondetBool()
 		}
 		b.Messages = append(b.Messages, m)
 	}
@@ -38,7 +40,7 @@ func verifHarness_C18_batch() {
 		for k, v := range w.InterestingFor {
 			gv, ok := g.InterestingFor[k]
 			verifAssert(ok, "batch-rcpt-present")
-			verifAssert(gv == v, "batch-rcpt-value")
+			verifAssert(verifImplies(v, gv), "batch-rcpt-value")
 		}
 		for k := range g.InterestingFor {
 			_, ok := w.InterestingFor[k]
